@@ -282,7 +282,7 @@ func splitEnv(e string) (string, string) {
 	if len(kv) == 2 {
 		return kv[0], kv[1]
 	}
-	return kv[0], ""
+	return kv[0], "\x00no-equals-sign" // "X" is not "X=": only the latter sets X to the empty string
 }
 
 // viewOfContainer canonicalises what a plugin was shown.
@@ -452,6 +452,7 @@ const (
 
 // Expect is what the statements require of one request.
 type Expect struct {
+	ArgsBare   bool // some plugin sent the bare args removal marker: outcome stated for conflicts only
 	Verdict    string
 	Why        string
 	FailItem   string // item on which the model found the (first) conflict
@@ -669,7 +670,8 @@ func Evaluate(kind string, ctr *api.Container, reqRes *api.LinuxResources, resp 
 					}
 					args = args[1:]
 					if len(args) == 0 {
-						unspec("bare args removal")
+						// a removal and no conflict, that much is stated; the resulting command line is not
+						e.ArgsBare = true
 					} else {
 						e.ReSets++
 					}
